@@ -51,8 +51,8 @@ class CHECK(core.Check):
     LEAN_MODULES = ["IofloModel.Props.C19"]
     ENGINE = "share"
     N_QUICK = 600
-    N_THOROUGH = 15000
-    N_SEARCH = 1500
+    N_THOROUGH = 9000
+    N_SEARCH = 800
     RULE = ("histories of 1..60 operations on one Share: value/update/change/create (as duple list, dict or "
             "keywords, with duplicate and existing keys), item set/get/del/contains/get, keys/items/values/len, "
             "pop/popitem/setdefault/clear, deck push/pull/gulp/spew (with None), stamp changes of two stores "
